@@ -31,7 +31,11 @@ SUndo == More /\ E.a = "undo" /\ (Undo(C1, KTid(E.k)) \/ UndoUnknown(C1, KTid(E.
 SVote == More /\ E.a = "vote" /\ Vote(C1) /\ Adv /\ act' = E
 SFinish == More /\ E.a = "finish" /\ Finish(C1) /\ Adv /\ act' = E
 SAbort == More /\ E.a = "abort" /\ Abort(C1) /\ Adv /\ act' = E
-SPack == More /\ E.a = "pack" /\ Pack(E.sec, E.gc) /\ Adv /\ act' = E
+\* (the verdict of the C07 relation on this pack step is recorded with the call: a script is a single behaviour, and
+\* a property violation would end the evaluation of all the other scripts of the run)
+SPack == More /\ E.a = "pack" /\ Pack(E.sec, E.gc) /\ Adv
+         /\ act' = [a |-> "pack", sec |-> E.sec, gc |-> E.gc,
+                    packok |-> (res'.out = "ok" => PackOK(hist, hist', res'.T))]
 SReopen == More /\ E.a = "reopen" /\ CloseReopen /\ Adv /\ act' = E
 SNewOid == More /\ E.a = "newoid" /\ NewOid /\ Adv /\ act' = E
 \* after a call of the transaction failed (an undo that raises, a conflict) the caller aborts: the rest of that
